@@ -213,16 +213,16 @@ theorem arm_visits (inst : Instance) (c : Client) (k B : Nat) (hk : 2 ≤ k) (hl
           · rename_i n hr; exact hrec _ _ _ (hres _ _ hr)
     · simp only [List.length_range']
       omega
-  | leaf fills =>
+  | leaf brush =>
     simp only [arm]
-    cases fills <;> simp [emit_visits]
+    cases brush <;> simp [emit_visits]
   | glyph g child =>
     simp only [arm]
     split
     · simp
     · rename_i n hr
-      have h1 := hrec n dec { st with opts := { success := true, hasT := false, gid := g } :: st.opts } (hres _ _ hr)
-      generalize rec n dec { st with opts := { success := true, hasT := false, gid := g } :: st.opts } = r1 at h1 ⊢
+      have h1 := hrec n dec { st with opts := { success := true, bt := none, gid := g } :: st.opts } (hres _ _ hr)
+      generalize rec n dec { st with opts := { success := true, bt := none, gid := g } :: st.opts } = r1 at h1 ⊢
       simp only at h1
       split
       · omega
@@ -246,21 +246,19 @@ theorem arm_visits (inst : Instance) (c : Client) (k B : Nat) (hk : 2 ≤ k) (hl
         · simp only; omega
         · simp only; omega
         · split
-          · split <;> simp only [emit_visits] <;> omega
+          · simp only [pushClip_visits]; omega
           · rename_i pid _ _ dec' _ _ _ _ n hr
-            have h1 := hrec n dec' (if inst.hasClip g = true then emit c Event.pushClipBox a.2 else a.2) (hres _ _ hr)
-            generalize rec n dec' (if inst.hasClip g = true then emit c Event.pushClipBox a.2 else a.2) = r at h1 ⊢
-            have hv : (if inst.hasClip g = true then emit c Event.pushClipBox a.2 else a.2).visits = a.2.visits := by
-              split <;> simp [emit_visits]
-            rw [hv] at h1
-            split <;> (try simp only [emit_visits]) <;> omega
-  | transform child =>
+            have h1 := hrec n dec' (pushClip c (inst.clip g) a.2) (hres _ _ hr)
+            generalize rec n dec' (pushClip c (inst.clip g) a.2) = r at h1 ⊢
+            rw [pushClip_visits] at h1
+            simp only [popClipIf_visits]; omega
+  | transform tag child =>
     simp only [arm]
     split
     · simp only [emit_visits]; omega
     · rename_i n hr
-      have h1 := hrec n dec (emit c .pushT st) (hres _ _ hr)
-      generalize rec n dec (emit c .pushT st) = r at h1 ⊢
+      have h1 := hrec n dec (emit c (.pushT [tag]) st) (hres _ _ hr)
+      generalize rec n dec (emit c (.pushT [tag]) st) = r at h1 ⊢
       simp only [emit_visits] at h1 ⊢
       omega
   | composite src mode backdrop =>
